@@ -14,6 +14,7 @@ import (
 	lcontext "github.com/ysugimoto/falco/v2/linter/context"
 	"github.com/ysugimoto/falco/v2/parser"
 	"github.com/ysugimoto/falco/v2/resolver"
+	"github.com/ysugimoto/falco/v2/snippet"
 )
 
 type Diag struct {
@@ -74,6 +75,12 @@ type Result struct {
 
 // Lint parses and lints src. Panics are NOT recovered here.
 func Lint(src string, res resolver.Resolver) *Result {
+	return LintWith(src, res, nil)
+}
+
+// LintWith lints src with Fastly managed snippets (scoped snippets for the #FASTLY macros and
+// "snippet::name" includes) in the linter context.
+func LintWith(src string, res resolver.Resolver, snips *snippet.Snippets) *Result {
 	r := &Result{}
 	v, err := parser.New(lexer.NewFromString(src, lexer.WithFile("main.vcl"))).ParseVCL()
 	if err != nil {
@@ -84,7 +91,11 @@ func Lint(src string, res resolver.Resolver) *Result {
 		res = &MapResolver{Main: src}
 	}
 	l := linter.New(&config.LinterConfig{})
-	l.Lint(v, lcontext.New(lcontext.WithResolver(res)))
+	opts := []lcontext.Option{lcontext.WithResolver(res)}
+	if snips != nil {
+		opts = append(opts, lcontext.WithSnippets(snips))
+	}
+	l.Lint(v, lcontext.New(opts...))
 	if l.FatalError != nil {
 		r.Fatal = fmt.Sprint(l.FatalError.Error)
 	}
